@@ -101,44 +101,7 @@ func (c *Ctx) checkHeaderReaders() {
 		}
 		n++
 		key := ssaFuncKey(fn)
-		var wrong []string
-		undec := ""
-		for v := int64(0); v < 256; v++ {
-			want := int64(0)
-			if v>>5 == hr.major {
-				switch ai := v & 31; {
-				case ai <= 23 || ai == 31:
-					want = 1
-				case ai == 24:
-					want = 2
-				case ai == 25:
-					want = 3
-				case ai == 26:
-					want = 5
-				case ai == 27:
-					want = 9
-				}
-			}
-			rs, ok := constResults(fn, hr.idx, map[string]int64{"p0[0]": v, "len(p0)": 16}, 0)
-			if !ok || len(rs) == 0 {
-				undec = fmt.Sprintf("%#x", v)
-				break
-			}
-			good := rs[want]
-			for r := range rs {
-				if r != want && r != 0 {
-					good = false
-				}
-			}
-			if !good {
-				var got []string
-				for r := range rs {
-					got = append(got, fmt.Sprint(r))
-				}
-				sort.Strings(got)
-				wrong = append(wrong, fmt.Sprintf("%#x→%s (RFC 8949: %d)", v, strings.Join(got, "/"), want))
-			}
-		}
+		wrong, undec := headerWidthVerdict(fn, hr.idx, hr.major)
 		if undec != "" {
 			c.Undecided("%s: the header width for initial byte %s is not a constant this checker can evaluate", key, undec)
 			continue
@@ -147,8 +110,108 @@ func (c *Ctx) checkHeaderReaders() {
 			wrong = append(wrong[:6], fmt.Sprintf("… %d initial bytes", len(wrong)))
 		}
 		c.Check(len(wrong) == 0, "header-width-table", key, fn.Pos(), "header width 1/2/3/5/9 by additional info for all 256 initial bytes", "the header width read from the bytes is wrong for initial byte "+strings.Join(wrong, ", ")+": every offset computed behind such a header is shifted")
+		// (count, width, indefinite) readers: when an indefinite header can come back with a negative count, every caller
+		// that gives up on "count < 0" must also look at the indefinite flag — otherwise indefinite containers, which the
+		// decoders accept, get no offsets
+		if hr.idx == 1 && fn.Signature.Results().Len() == 3 {
+			indef := int64(hr.major<<5 | 31)
+			rs, ok := constResults(fn, 0, map[string]int64{"p0[0]": indef, "len(p0)": 16}, 0)
+			neg := false
+			for r := range rs {
+				if r < 0 {
+					neg = true
+				}
+			}
+			if ok && neg {
+				for _, g := range c.pkgFuncs(hr.rel) {
+					for _, ci := range allCalls(g) {
+						if ci.Common().StaticCallee() != fn || ci.Value() == nil {
+							continue
+						}
+						var cnt, flag ssa.Value
+						for _, u := range referrersOf(ci.Value()) {
+							if ex, isEx := u.(*ssa.Extract); isEx {
+								switch ex.Index {
+								case 0:
+									cnt = ex
+								case 2:
+									flag = ex
+								}
+							}
+						}
+						if cnt == nil {
+							continue
+						}
+						for _, u := range referrersOf(cnt) {
+							bo, isBo := u.(*ssa.BinOp)
+							if !isBo || bo.Op != token.LSS || bo.X != cnt || desc(bo.Y) != "0" {
+								continue
+							}
+							for _, w := range referrersOf(bo) {
+								iff, isIf := w.(*ssa.If)
+								if !isIf {
+									continue
+								}
+								// the true successor must test the indefinite flag before giving up
+								tb := iff.Block().Succs[0]
+								consults := false
+								if i2, ok2 := tb.Instrs[len(tb.Instrs)-1].(*ssa.If); ok2 && flag != nil && usesValue(i2.Cond, flag) {
+									consults = true
+								}
+								c.Check(consults, "header-width-table", ssaFuncKey(g)+":"+fn.Name()+":count<0", bo.Pos(), "a negative count is a failure only when the header is not indefinite", fn.Name()+" now reports a negative count for an indefinite header, and "+ssaFuncKey(g)+" gives up on count < 0 without looking at the indefinite flag: containers written with indefinite length, which the decoders accept, get no offsets")
+							}
+						}
+					}
+				}
+			}
+		}
 	}
 	c.Floor("header-width-table", n)
+}
+
+// headerWidthVerdict evaluates fn's result idx for all 256 initial bytes of its []byte parameter (first parameter) and
+// compares with the RFC 8949 header width of a container of the given major type; 0 (and negative) results mean "not
+// such a container / rejected" and are always acceptable next to the right width.
+func headerWidthVerdict(fn *ssa.Function, idx int, major int64) (wrong []string, undec string) {
+	for v := int64(0); v < 256; v++ {
+		want := int64(0)
+		if v>>5 == major {
+			switch ai := v & 31; {
+			case ai <= 23 || ai == 31:
+				want = 1
+			case ai == 24:
+				want = 2
+			case ai == 25:
+				want = 3
+			case ai == 26:
+				want = 5
+			case ai == 27:
+				want = 9
+			}
+		}
+		rs, ok := constResults(fn, idx, map[string]int64{"p0[0]": v, "len(p0)": 16}, 0)
+		if !ok {
+			return nil, fmt.Sprintf("%#x", v)
+		}
+		if len(rs) == 0 {
+			continue // every feasible return is an error
+		}
+		good := rs[want] || want == 0
+		for r := range rs {
+			if r != want && r > 0 {
+				good = false
+			}
+		}
+		if !good {
+			var got []string
+			for r := range rs {
+				got = append(got, fmt.Sprint(r))
+			}
+			sort.Strings(got)
+			wrong = append(wrong, fmt.Sprintf("%#x→%s (RFC 8949: %d)", v, strings.Join(got, "/"), want))
+		}
+	}
+	return wrong, ""
 }
 
 func runC07(c *Ctx) {
